@@ -11,6 +11,7 @@ def step (_ : Unit) (ws : List String) : Unit × String :=
     | some k => ((), verdict (amo k (b ack)))
     | none => ((), "bad-op")
   | ["!broken", _, _, r, e, o] => ((), verdict (broken (b r) (b e) (b o)))
+  | ["!own", _, _, r, e, o] => ((), verdict (broken (b r) (b e) (b o)))
   | ["!later", f, o] => ((), verdict (later f o))
   | ["!deadline", kind, mode, r, p, c, n] =>
     -- waiting on another caller's flight never sends by construction; everything else is judged in full
